@@ -203,8 +203,10 @@ def shrink(case):
         yield dict({k: v for k, v in case.items() if k != "to_func"}, variant="A" if case["variant"] == "B" else "C")
     for nb in B.shrink_body(case["ast"]["body"]):
         yield dict(case, ast=dict(case["ast"], body=nb))
+    if case["ast"].get("cfg_rot"):
+        yield dict(case, ast={k: v for k, v in case["ast"].items() if k != "cfg_rot"})
     if case["ast"].get("cfg_loop"):
-        yield dict(case, ast={k: v for k, v in case["ast"].items() if k != "cfg_loop"})
+        yield dict(case, ast={k: v for k, v in case["ast"].items() if k not in ("cfg_loop", "cfg_rot")})
     if case["ast"].get("blocks"):
         b1, b2 = case["ast"]["blocks"]
         for nb in B.shrink_body(b1):
